@@ -1,5 +1,173 @@
-"""C07 -- J1939-22 part (built in the FD round)"""
+"""C07 -- J1939-22 part: hostile FD.TP.CM / FD.TP.DT / multi-PG frames."""
+from fractions import Fraction
+
+from ..ref import ids, tp21, tp22
+from ..runner import Job
+from ..symx import sym_eq_seq, sym_and, sym_or, sym_not, T, concretize
+from .. import world as W
+from .common import Stack, sym_payload
+from .c07 import GAPS, S, P, frames_of
+
+MSG_PF = 0xD0
+
+
+def fd_rx_transfer(ex, w, st, tag, L=130, src=P, session=0):
+    """well-formed FD RTS/CTS transfer from a scripted peer to the stack"""
+    n = st.node
+    payload = [(13 * j + 5) % 256 for j in range(L)]
+    nseg = tp22.nsegments(L)
+    pgn = MSG_PF << 8
+    k = len(w.log)
+    nrx = len(st.rx)
+    inj = lambda pf, data: w.inject(n, tp21.can_id(7, pf, S, src), data, fd=True)
+    inj(tp22.PF_CM, tp22.cm_frame(tp22.RTS, session, L, nseg, 255, 0, pgn))
+    w.run(until=w.now + T('1/100'))
+    sent = 0
+    guard = 0
+    while sent < nseg and guard < 2 * nseg + 2:
+        guard += 1
+        new = frames_of(w, k)
+        k = len(w.log)
+        cts = [f for f in new if bool(ids.id_fields(f['id'])['pf'] == tp22.PF_CM) and bool(f['data'][0] % 16 == tp22.CTS)]
+        if not cts:
+            break
+        cnt = min(concretize(cts[-1]['data'][7]), nseg - sent)
+        if cnt <= 0:
+            break
+        for _ in range(cnt):
+            sent += 1
+            inj(tp22.PF_DT, tp22.dt_frame(session, sent, payload))
+            w.run(until=w.now + T('1/1000'))
+    if sent == nseg:
+        inj(tp22.PF_CM, tp22.cm_frame(tp22.EOMS, session, L, nseg, 0, 0, pgn))
+    w.run(until=w.now + T('1/10'))
+    got = st.rx[nrx:]
+    ok = sent == nseg and len(got) == 1
+    ex.claim(tag + '.inbound_transfer_completes', ok, {'sent': sent, 'nseg': nseg, 'deliveries': len(got)})
+    if ok:
+        ex.claim(tag + '.inbound_payload', sym_eq_seq(got[0]['data'], payload))
+
+
+def fd_tx_transfer(ex, w, st, tag, L=130, dst=P):
+    n = st.node
+    payload = [(17 * j + 9) % 256 for j in range(L)]
+    nseg = tp22.nsegments(L)
+    pgn = MSG_PF << 8
+    k = len(w.log)
+    r = st.ca.send_pgn(0, MSG_PF, dst, 6, list(payload))
+    ex.claim(tag + '.outbound_accepted', r is True)
+    if r is not True:
+        return
+    w.run(until=w.now + T('1/100'))
+    rts = [f for f in frames_of(w, k) if bool(ids.id_fields(f['id'])['pf'] == tp22.PF_CM)]
+    if not rts:
+        ex.claim(tag + '.outbound_rts', False)
+        return
+    sess = concretize(rts[0]['data'][0]) // 16
+    dts = []
+    for _ in range(nseg + 1):
+        # the originator sends at most its own maximum per CTS: clear the rest again until everything has arrived
+        if len(dts) >= nseg:
+            break
+        w.inject(n, tp21.can_id(7, tp22.PF_CM, S, dst), tp22.cm_frame(tp22.CTS, sess, 0xFFFFFF, len(dts) + 1, nseg - len(dts), 0, pgn), fd=True)
+        w.run(until=w.now + T('1/10'))
+        got = [f for f in frames_of(w, k) if bool(ids.id_fields(f['id'])['pf'] == tp22.PF_DT)]
+        if len(got) == len(dts):
+            break
+        dts = got
+    ok = len(dts) == nseg
+    ex.claim(tag + '.outbound_all_segments', ok, {'dts': len(dts), 'nseg': nseg})
+    if ok:
+        ex.claim(tag + '.outbound_bytes', sym_and(*[sym_eq_seq(f['data'], tp22.dt_frame(sess, i + 1, payload)) for i, f in enumerate(dts)]))
+    w.inject(n, tp21.can_id(7, tp22.PF_CM, S, dst), tp22.cm_frame(tp22.EOMA, sess, L, nseg, 0xFF, 0xFF, pgn), fd=True)
+    w.run(until=w.now + T('1/10'))
+    k2 = len(w.log)
+    w.run(until=w.now + T(4))
+    ex.claim(tag + '.outbound_session_closed', len(frames_of(w, k2)) == 0, {'late_frames': len(frames_of(w, k2))})
+
+
+def h_hostile_fd(ex, kinds, srcs, gaps, phase='fresh', length=None, mpglen=4):
+    """kinds: per frame 'cm' | 'dt' | 'mpg' ; all data bytes, priority, destination symbolic"""
+    w = W.World(ex, mode='interleave')
+    st = Stack(w, 'S', S, dll='j1939-22', max_cmdt_packets=2)
+    n = st.node
+    w.run(until=T('1/100'))
+    if phase != 'fresh':
+        st.ca.send_pgn(0, MSG_PF, P, 6, [(j * 3) % 256 for j in range(250)])   # 5 segments
+        w.run(until=w.now + T('1/100'))
+        if phase in ('window', 'all_sent'):
+            w.inject(n, tp21.can_id(7, tp22.PF_CM, S, P), tp22.cm_frame(tp22.CTS, 0, 0xFFFFFF, 1, 2 if phase == 'window' else 5, 0, MSG_PF << 8), fd=True)
+            w.run(until=w.now + T('1/100'))
+    for i, (kd, src, gk) in enumerate(zip(kinds, srcs, gaps)):
+        w.run(until=w.now + GAPS[gk])
+        prio = ex.fresh_int('h%d_prio' % i, 0, 7)
+        dest = ex.fresh_int('h%d_dest' % i, 0, 255)
+        pf = {'cm': tp22.PF_CM, 'dt': tp22.PF_DT, 'mpg': tp22.PF_MPG}[kd]
+        ln = length if length is not None else {'cm': 12, 'dt': 16, 'mpg': 12}[kd]
+        data = sym_payload(ex, 'h%d_b' % i, ln)
+        if kd == 'mpg':
+            data[3] = mpglen        # contained length concrete (a symbolic one is a 256-way split per group)
+        cid = tp21.can_id(prio, pf, dest, src)
+        n.inbox.append({'i': -1, 't': w.now, 'src': 'ext', 'id': cid, 'ext': True, 'data': list(data), 'fd': True, 'lost': False})
+        w.run(until=w.now)
+    w.branching = False
+    w.run(until=w.now + T('6.5'))
+    info = {'phase': phase, 'kinds': kinds, 'srcs': srcs, 'gaps': gaps}
+    ex.claim('fd.job_thread_alive', n.dead is None, dict(info, died=repr(n.dead)))
+    ex.claim('fd.no_busy_spin', not n.spin, info)
+    if not n.job_alive():
+        ex.witness()
+        return
+    k = len(w.log)
+    w.run(until=w.now + T(6))
+    ex.claim('fd.quiet_after_longest_timeout', len(frames_of(w, k)) == 0, dict(info, late=len(frames_of(w, k))))
+    fired = []
+    t_reg = w.now
+    n.ecu.add_timer(Fraction(1, 4), lambda c: (fired.append(w.now), False)[1])
+    w.run(until=w.now + T(1))
+    ex.claim('fd.timer_fires_on_time', len(fired) == 1 and bool(fired[0] >= t_reg + Fraction(1, 4)) and bool(fired[0] <= t_reg + Fraction(1, 4) + Fraction(2, 1000)), info)
+    nrx = len(st.rx)
+    k2 = len(w.log)
+    for s_ in sorted(set(srcs)):
+        for dest in (255, S):
+            for sess in (0, 3, 9):
+                for seg in (1, 2):
+                    w.inject(n, tp21.can_id(7, tp22.PF_DT, dest, s_), [sess * 16, seg, 0, 0] + [7] * 60, fd=True)
+    w.run(until=w.now + T('1/10'))
+    ex.claim('fd.stray_segments_after_timeout_ignored', len(st.rx) == nrx and len(frames_of(w, k2)) == 0, dict(info, deliveries=len(st.rx) - nrx))
+    for sess in (0, 7):
+        fd_rx_transfer(ex, w, st, 'fd.followup_s%d' % sess, session=sess)
+    fd_tx_transfer(ex, w, st, 'fd.followup')
+    # the whole originator capacity is still there
+    rets = [st.ca.send_pgn(0, MSG_PF + 1 + j, P, 6, [j] * 70) for j in range(8)]
+    ex.claim('fd.full_outbound_capacity', all(r is True for r in rets), dict(info, accepted=rets.count(True)))
+    brets = [st.ca.send_pgn(0, 0xFE, 0x30 + j, 6, [j] * 70) for j in range(4)]
+    ex.claim('fd.full_bam_capacity', all(r is True for r in brets), dict(info, accepted=brets.count(True)))
+    w.run(until=w.now + T(6))
+    ex.claim('fd.job_thread_alive_at_end', n.job_alive())
+    ex.observe('errors', len(n.notify_errors))
+    ex.witness()
 
 
 def jobs(tier):
-    return []
+    out = []
+    q = tier == 'quick'
+
+    def J(wall=300, **p):
+        out.append(Job('C07', 'c07fd:h_hostile_fd', p, W=40, wall=wall if q else 3000, max_paths=400000, validate=1))
+
+    phases = ('fresh', 'rts', 'window', 'all_sent')
+    for ph in phases:
+        for kd in ('cm', 'dt', 'mpg'):
+            for src in ((P, S) if q else (P, S, 254, 255)):
+                J(kinds=[kd], srcs=[src], gaps=['0'], phase=ph)
+        J(kinds=['cm'], srcs=[P], gaps=['0'], phase=ph, length=5)
+        J(kinds=['dt'], srcs=[P], gaps=['0'], phase=ph, length=64)
+        for ml in ((8, 200) if q else (0, 1, 4, 8, 9, 60, 200, 255)):
+            J(kinds=['mpg'], srcs=[P], gaps=['0'], phase=ph, length=16, mpglen=ml)
+    if not q:
+        for ph in phases:
+            for g in tuple(GAPS):
+                J(kinds=['cm', 'dt'], srcs=[P, P], gaps=['0', g], phase=ph, wall=6000)
+            J(kinds=['cm', 'cm'], srcs=[P, P], gaps=['0', '0'], phase=ph, wall=6000)
+    return out
